@@ -6,8 +6,9 @@ func init() {
 		Explain: "Decides the service-merging mechanism structurally for every mix of calendar and calendar_dates rows: " +
 			"(SVC) services live in one map keyed by service_id and are stored under their own id; the existing entry is looked up by the row's service_id; StartDate/EndDate are assigned the exception's date only for a new service or under date.Before(StartDate) / EndDate.Before(date), and a service first seen in calendar_dates gets both ends on every path; the row's date is appended to AddedDates exactly under exception_type 1 and to RemovedDates under 2, at the tail (file order); other types leave no trace (REJECT); " +
 			"the first agency's zone is loaded whenever the agency list is not empty (no other condition on the number of agencies); (A1) weekday flags and dates are bound to their columns with the cell == \"1\" and YYYYMMDD decoders; (TIME) dates are midnight in the first agency's zone or UTC; (A5) calendar before calendar_dates before trips, Services materialised after both; (G6) Static.Services is built once from the map and sorted by id; (G7) no package-level state. " +
-			"Not decided: instant arithmetic of time.Time.Before.",
+			"Not decided: instant arithmetic of time.Time.Before. (ORDER) agencies stay in file order, so the first agency is the first row of agency.txt.",
 		Rules: []Rule{
+			{Name: "ORDER", Doc: "the first agency is the first row of agency.txt: file-order collections only grow at the tail and are not sorted (per-group sorts, comparators, tail appends)", MinInstances: 8, Run: runStaticOrder},
 			{Name: "SVC", Doc: "create-or-extend, exception table, write-back", MinInstances: 5, Run: runServiceRules},
 			{Name: "ROWSTATE", Doc: "nothing recorded about one row is still there when the next row is current (a calendar row skipped on a bad date does not decide the fate of the next one)", MinInstances: 1, Run: runRowState},
 			{Name: "A1", Doc: "calendar column bindings", MinInstances: 7, Run: func(c *Ctx) { runColumnTable(c, map[string]bool{"gtfs.Service": true}) }},
@@ -23,8 +24,9 @@ func init() {
 		Explain: "Behaviour over all presence combinations is not decided; decided are the structural clauses of parseAlert for every alert: " +
 			"(ALERT) the informs-something predicate is false exactly when agency, route, known route type, identifiable trip and stop are all absent (extracted decision table); a trip is identifiable exactly by id or by route+direction+start time+start date; selector entities are appended, one per accepted selector and in selector order, only under the predicate; on the identifiable edge every path also appends the trip (built from the selector's descriptor, not-in-message) and otherwise the trip id is cleared; route fallback entities are appended only under !informedRoutes[route] evaluated after the selector loop, the bookkeeping maps only grow, the fallback direction is the single named one; " +
 			"(A3) selector fields are bound to their wire fields; (SCAN) the loops of parseAlert that add an entity per element are not left by a break; (ENUM) the decoders into enumerations reached from ParseRealtime answer only with declared constants (a route type outside the table is Unknown); (MERGE) alert trips are merged into Trips; (G6) fallback order does not depend on map iteration. " +
-			"Not decided: combinatorics of overlapping selectors beyond these clauses. From the true edge of the informs-something predicate every path to the next selector appends the entity; the direction recorded for a route-only trip descriptor binds to the descriptor's direction_id. (TID) a start time / start date of a selector's trip descriptor is dropped only when absent or not matching its pattern, so identifiable trips stay identifiable.",
+			"Not decided: combinatorics of overlapping selectors beyond these clauses. From the true edge of the informs-something predicate every path to the next selector appends the entity; the direction recorded for a route-only trip descriptor binds to the descriptor's direction_id. (TID) a start time / start date of a selector's trip descriptor is dropped only when absent or not matching its pattern, so identifiable trips stay identifiable. (DIRT) the realtime direction decoder is absent -> unspecified, 0 -> false, anything else -> true.",
 		Rules: []Rule{
+			{Name: "DIRT", Doc: "the direction of a selector or of its trip descriptor is decoded as absent -> unspecified, 0 -> false, anything else -> true (a decoder that maps other numbers to unspecified loses the direction, and with it the identifiability of the trip)", MinInstances: 1, Run: func(c *Ctx) { runDirectionTable(c, "DIRT") }},
 			{Name: "TID", Doc: "whether a selector names an identifiable trip depends on its start time / start date: they are dropped only when absent or not matching their pattern (hours past 23 are valid)", MinInstances: 2, Run: func(c *Ctx) { runStartAcceptance(c, "TID") }},
 			{Name: "SCAN", Doc: "a loop that does something for each element is not left early (no break out of a processing loop)", MinInstances: 1, Run: func(c *Ctx) { runFullScan(c, realtimeFns(c), "SCAN") }},
 			{Name: "ALERT", Doc: "predicates, append-under-predicate, keep/clear pairing, fallback guard", MinInstances: 7, Run: runAlertRules},
